@@ -17,7 +17,7 @@ import sys
 
 sys.path.insert(0, os.path.dirname(os.path.abspath(__file__)))
 from py2lean_types import (Unsupported, Impure, TInt, TBool, TStr, TNone, TRange, TErased, TList, TOpt,  # noqa: E402
-                           TTuple, TDict, TObj, TAbs, TExc, TUnion, TVar, THet, INT, BOOL, STR, NONE, RANGE, ERASED,
+                           TTuple, TDict, TObj, TAbs, TExc, TUnion, TVar, THet, TBuilder, TFun, INT, BOOL, STR, NONE, RANGE, ERASED,
                            resolve, unify, join, coerce, proj)
 from py2lean_expr import ExprMixin, TyRef, src, indent  # noqa: E402
 from py2lean_calls import CallMixin  # noqa: E402
@@ -107,6 +107,9 @@ class FnTranslator(ExprMixin, CallMixin, StmtMixin):
         self.counter = 0
         self.prefix = ""
         self.aliased = set()
+        self.effect_self = False
+        self.current_method = None
+        self.recursive = False
         self.returns = []
         self.ret_codes = {}
         self.observers = []
@@ -192,7 +195,9 @@ def translate_function(reg, fn, node, cls=None, declared_ret=None):
         tr.monadic = monadic
         env = {}
         if cls is not None:
-            env["self"] = ("self", TObj(cls.name))
+            env["self"] = ("self", fn.self_ty)
+            tr.effect_self = isinstance(fn.self_ty, TBuilder)
+            tr.current_method = fn
         for p, t in fn.params:
             env[p] = (("()" if isinstance(t, TErased) else p), t)
         is_gen = any(isinstance(n, (ast.Yield, ast.YieldFrom)) for n in ast.walk(node))
@@ -216,6 +221,8 @@ def translate_function(reg, fn, node, cls=None, declared_ret=None):
                 return tr.ret(body)
             if is_gen:
                 return tr.finish_return(*env_end["«yield»"])
+            if getattr(tr, "effect_self", False):
+                return tr.finish_return(*env_end["self"])        # a procedure on an effect object: its final state
             return tr.finish_return("()", NONE)
         code = tr.block(node.body, env, fall)
         if is_gen:
@@ -253,6 +260,9 @@ def translate_function(reg, fn, node, cls=None, declared_ret=None):
                 v = _into(c, t, rt)
                 code = code.replace(key, v if v.startswith("(") or v.startswith("[") or v.replace("_", "a").replace(".", "a").isalnum() else "(" + v + ")")
             fn.ret = rt
+        if getattr(tr, "recursive", False):
+            fn.recursive = True
+            code = "match fuel with\n| 0 => Except.error Err.recursion\n| fuel + 1 =>\n" + indent(code)
         fn.code = TyRef.subst(code)
         if "«" in fn.code:
             raise Unsupported("internal: unresolved placeholder")
@@ -349,6 +359,9 @@ def run_specs(specs):
                 lean = "{}.{}".format(cname, msp.get("lean", meth.strip("_")))
                 fn = FnInfo(meth, lean, list(msp["params"].items()), vararg=msp.get("vararg"))
                 fn.self_ty = TObj(cname)
+                if item.get("self_builder"):
+                    b = reg.builders[cname]
+                    fn.self_ty = TBuilder(cname, [t for t in b["ctor"] if not isinstance(t, TErased)], b["command"], b["args"])
                 fn.is_init = (meth == "__init__")
                 fn.ret = msp.get("ret")
                 fn.cls = cname
@@ -417,6 +430,8 @@ open Cnfgen Cnfgen.Py
 
 def signature(fn):
     ps = []
+    if getattr(fn, "recursive", False):
+        ps.append("(fuel : Nat)")
     if fn.self_ty is not None and not fn.is_init:
         ps.append("(self : {})".format(fn.self_ty.lean()))
     for p, t in fn.params:
